@@ -431,7 +431,12 @@ class DamageScenario(BaseScenario):
         if extra:
             problems.append(f"unknown entity {extra[0]} appeared")
         if problems:
-            raise Violation("C19", "unrelated_entity_altered", f"deleting {cls} {where}: {problems[0]} (+{len(problems) - 1} more)", tag_ctx)
+            # what kind of difference: an entity gone or unknown, stored content, the parent, or only lists of children
+            kinds = {"missing" if (p.endswith("is missing") or p.startswith("unknown entity")) else "children" if " children:" in p else "parent" if " parent:" in p else "content"
+                     for p in problems}
+            worst = next(k for k in ("missing", "content", "parent", "children") if k in kinds)
+            first = next(p for p in problems if (worst == "missing") == (p.endswith("is missing") or p.startswith("unknown entity")))
+            raise Violation("C19", "unrelated_entity_altered", f"deleting {cls} {where}: {first} (+{len(problems) - 1} more)", {**tag_ctx, "what": worst})
         if item["ctx"] in ("pg", "pg_attr"):
             # an item of ONE property group describes that group: the object's other groups, and the rest of the object, stay
             owner = item.get("owner")
